@@ -284,10 +284,11 @@ func (g *gstate) evolve(r *gen.Rand) (class string, stale bool) {
 			}
 		}
 		// and add a new one so that forward and backward inserts coincide
-		if r.Chance(1, 2) {
-			i := g.newIdx(r, g.pos)
-			if _, ok := g.pos[i]; !ok {
-				g.pos[i] = g.amount(r)
+		if r.Chance(2, 3) {
+			m := sides[r.Intn(len(sides))]
+			i := g.newIdx(r, m)
+			if _, ok := m[i]; !ok {
+				m[i] = g.amount(r)
 				class = "drop-zero+newbucket"
 			}
 		}
@@ -340,6 +341,24 @@ func (g *gstate) evolve(r *gen.Rand) (class string, stale bool) {
 			} else {
 				g.neg = n
 			}
+		}
+	case x < 97 && len(sides) == 2: // an unused bucket vanishes on one side while the other side grows
+		class = "cross-sides"
+		a, b := sides[0], sides[1]
+		if r.Bool() {
+			a, b = b, a
+		}
+		for _, i := range keys(a) {
+			if a[i] == 0 {
+				delete(a, i)
+			}
+		}
+		if len(a) > 0 && r.Chance(1, 2) { // make sure there is an unused bucket to vanish next time
+			a[g.newIdx(r, a)] += 0
+		}
+		i := g.newIdx(r, b)
+		if _, ok := b[i]; !ok {
+			b[i] = g.amount(r)
 		}
 	default:
 		class = "same"
@@ -625,7 +644,7 @@ func runDirect(id int, r *gen.Rand, variant int, ops []opT, meta *gallina.Meta, 
 		}
 	}
 	chunks = append(chunks, cur)
-	var cs []string
+	var cs, reenc []string
 	total := 0
 	for _, c := range chunks {
 		if c.NumSamples() == 0 {
@@ -637,12 +656,77 @@ func runDirect(id int, r *gen.Rand, variant int, ops []opT, meta *gallina.Meta, 
 		}
 		total += n
 		cs = append(cs, s)
+		// re-encode the chunk the way compaction does for open / partially covered chunks
+		nc, rerr := reencodeChunk(c)
+		switch {
+		case rerr != nil:
+			reenc = append(reenc, "0")
+			meta.Hit("reencode-error")
+			d.Shape = "reencode-error"
+			if gaugeStaleIn(ops) {
+				d.Shape = "gauge-hinted-stale-marker-reencode-error"
+			}
+			d.Note = "re-encoding a chunk (appendOnly) failed: " + rerr.Error()
+		default:
+			s2, _, _ := readChunk(nc, float)
+			if s2 == s {
+				reenc = append(reenc, "1")
+				meta.Hit("reencode-ok")
+			} else {
+				reenc = append(reenc, "2")
+				meta.Hit("reencode-differs")
+				d.Shape = "reencode-differs"
+			}
+		}
 	}
 	if len(cs) > 1 {
 		meta.Hit("multi-chunk")
 	}
 	meta.Case(id, d)
-	return fmt.Sprintf("mkCase %d 0 %s %s %s %s [] [] []", id, kindS(float), gallina.List(opsS), gallina.List(stepsS), gallina.List(cs))
+	return fmt.Sprintf("mkCase %d 0 %s %s %s %s %s [] [] []", id, kindS(float), gallina.List(opsS), gallina.List(stepsS), gallina.List(cs), gallina.List(reenc))
+}
+
+func gaugeStaleIn(ops []opT) bool {
+	for _, o := range ops {
+		if o.h.stale() && o.h.hint() == histogram.GaugeType {
+			return true
+		}
+	}
+	return false
+}
+
+// reencodeChunk mirrors populateWithDelChunkSeriesIterator.populateCurrForSingleChunk (tsdb/querier.go).
+func reencodeChunk(c chunkenc.Chunk) (nc chunkenc.Chunk, err error) {
+	defer func() {
+		if p := recover(); p != nil {
+			err = fmt.Errorf("panic: %v", p)
+		}
+	}()
+	nc, err = chunkenc.NewEmptyChunk(c.Encoding())
+	if err != nil {
+		return nil, err
+	}
+	app, err := nc.Appender()
+	if err != nil {
+		return nil, err
+	}
+	it := c.Iterator(nil)
+	for vt := it.Next(); vt != chunkenc.ValNone; vt = it.Next() {
+		st := it.AtST()
+		switch vt {
+		case chunkenc.ValHistogram:
+			t, h := it.AtHistogram(nil)
+			if _, _, app, err = app.AppendHistogram(nil, st, t, h, true); err != nil {
+				return nil, err
+			}
+		case chunkenc.ValFloatHistogram:
+			t, h := it.AtFloatHistogram(nil)
+			if _, _, app, err = app.AppendFloatHistogram(nil, st, t, h, true); err != nil {
+				return nil, err
+			}
+		}
+	}
+	return nc, it.Err()
 }
 
 // ---------- mode 1: through a real Head ----------
@@ -734,7 +818,15 @@ func runHead(id int, r *gen.Rand, float bool, ops []opT, out string, meta *galli
 			meta.GoViol = append(meta.GoViol, gallina.GoViolation{ID: fmt.Sprint(id), Shape: "read-error", What: path + ": " + err.Error()})
 			return
 		}
-		reads = append(reads, s)
+		dup := false
+		for _, p := range reads {
+			if p == s {
+				dup = true // identical to an earlier read: one copy is enough for Coq
+			}
+		}
+		if !dup {
+			reads = append(reads, s)
+		}
 		meta.Hit("read-" + path)
 	}
 	read("head")
@@ -762,7 +854,7 @@ func runHead(id int, r *gen.Rand, float bool, ops []opT, out string, meta *galli
 		read("block")
 	}
 	meta.Case(id, d)
-	return fmt.Sprintf("mkCase %d 1 %s %s [] [] %s %s []", id, kindS(float), gallina.List(opsS), gallina.List(reads), gallina.List(after)), true
+	return fmt.Sprintf("mkCase %d 1 %s %s [] [] [] %s %s []", id, kindS(float), gallina.List(opsS), gallina.List(reads), gallina.List(after)), true
 }
 
 // ---------- mode 2: components ----------
@@ -850,20 +942,51 @@ func runComponents(id int, r *gen.Rand, meta *gallina.Meta, d desc) string {
 		}
 	}
 	meta.Case(id, d)
-	return fmt.Sprintf("mkCase %d 2 KInt [] [] [] [] [] %s", id, gallina.List(comps))
+	return fmt.Sprintf("mkCase %d 2 KInt [] [] [] [] [] [] %s", id, gallina.List(comps))
 }
 
 func main() {
 	f := gallina.ParseFlags()
 	meta := gallina.NewMeta("C11", f.Seed, f.Tier)
 	meta.Rule = "one case = one generated histogram sequence (mode 0: through a chunk appender variant with harness-chosen cuts; mode 1: through a real DB/Head, read back from head, after reopen and from the compacted block; mode 2: six direct calls of each layout helper). distinct_nontrivial counts mode-0/1 cases whose run produced at least one recode, new chunk from the appender, or rewritten caller histogram (mode 0), or more than one head chunk (mode 1); sequences are distinct by construction (seed, index)"
-	cf := &gallina.CaseFile{Dir: f.Out, Type: "case", PerShard: 150,
+	cf := &gallina.CaseFile{Dir: f.Out, Type: "case", PerShard: 40,
 		Preamble: "From Coq Require Import List ZArith Uint63.\nFrom Verif Require Import model.HistChunk corr.CorrC11.\nImport ListNotations.\nOpen Scope Z_scope.\n",
 		Footer:   gallina.StdFooter}
 	id := 0
-	nDirect := f.Count(220, 12000)
-	nHead := f.Count(16, 600)
-	nComp := f.Count(40, 2000)
+	nDirect := f.Count(100, 1500)
+	nHead := f.Count(6, 60)
+	nComp := f.Count(20, 300)
+	// corpus: reproducer of the finding "a gauge chunk holding a GaugeType-hinted staleness marker
+	// cannot be re-encoded" (chunk level, all four chunk variants, and through head compaction)
+	corpus := func(float bool) []opT {
+		stale := math.Float64frombits(value.StaleNaN)
+		if float {
+			return []opT{
+				{t: 1, class: "corpus", h: H{F: &histogram.FloatHistogram{CounterResetHint: histogram.GaugeType, Count: 1, PositiveSpans: []histogram.Span{{Offset: 0, Length: 1}}, PositiveBuckets: []float64{1}}}},
+				{t: 2, class: "corpus", h: H{F: &histogram.FloatHistogram{CounterResetHint: histogram.GaugeType, Sum: stale}}},
+			}
+		}
+		return []opT{
+			{t: 1, class: "corpus", h: H{I: &histogram.Histogram{CounterResetHint: histogram.GaugeType, Count: 1, PositiveSpans: []histogram.Span{{Offset: 0, Length: 1}}, PositiveBuckets: []int64{1}}}},
+			{t: 2, class: "corpus", h: H{I: &histogram.Histogram{CounterResetHint: histogram.GaugeType, Sum: stale}}},
+		}
+	}
+	for variant := 0; variant < 4; variant++ {
+		r := gen.Fork(f.Seed, 3_000_000+variant)
+		cf.Add(runDirect(id, r, variant, corpus(variant >= 2), meta, desc{Mode: 0, Variant: variantName[variant], Seed: f.Seed, Index: 3_000_000 + variant, Ops: 2, Shape: "direct-" + variantName[variant], Note: "corpus: gauge chunk with GaugeType-hinted staleness marker"}))
+		meta.Hit("corpus")
+		meta.Evaluations++
+		id++
+	}
+	for _, float := range []bool{false, true} {
+		r := gen.Fork(f.Seed, 3_000_010)
+		if s, ok := runHead(id, r, float, corpus(float), f.Out, meta, desc{Mode: 1, Variant: kindS(float), Seed: f.Seed, Index: 3_000_010, Ops: 2, Shape: "head-" + kindS(float), Note: "corpus: gauge series with GaugeType-hinted staleness marker, then head compaction"}); ok {
+			cf.Add(s)
+			meta.Hit("corpus")
+			meta.Evaluations++
+			id++
+		}
+	}
 	for i := 0; i < nDirect; i++ {
 		r := gen.Fork(f.Seed, i)
 		variant := i % 4
@@ -872,7 +995,7 @@ func main() {
 			n = 25 + r.Intn(20)
 		}
 		cutProb := []int{0, 4, 8, 15}[r.Intn(4)]
-		ops := genOps(r, variant >= 2, n, cutProb, true)
+		ops := genOps(r, variant >= 2, n, cutProb, (i/4)%4 == 3)
 		var classes []string
 		for _, o := range ops {
 			classes = append(classes, o.class)
@@ -890,7 +1013,7 @@ func main() {
 	for i := 0; i < nHead; i++ {
 		r := gen.Fork(f.Seed, 1_000_000+i)
 		float := i%2 == 1
-		n := 20 + r.Intn(60)
+		n := 15 + r.Intn(40)
 		ops := genOps(r, float, n, 0, false)
 		before := meta.Dist["head-multi-chunk"]
 		s, ok := runHead(id, r, float, ops, f.Out, meta, desc{Mode: 1, Variant: kindS(float), Seed: f.Seed, Index: 1_000_000 + i, Ops: len(ops), Shape: "head-" + kindS(float)})
